@@ -479,13 +479,16 @@ func (c *sseClientConn) Read(ctx context.Context) (jsonrpc.Message, error) {
 		return nil, ctx.Err()
 
 	case <-c.done:
+		// The stream has ended. What it delivered before it ended (a response
+		// followed at once by the end of the stream) is still handed over.
+		select {
+		case data := <-c.incoming:
+			return jsonrpc2.DecodeMessage(data)
+		default:
+		}
 		return nil, io.EOF
 
 	case data := <-c.incoming:
-		// TODO(rfindley): do we really need to check this? We receive from c.done above.
-		if c.isDone() {
-			return nil, io.EOF
-		}
 		msg, err := jsonrpc2.DecodeMessage(data)
 		if err != nil {
 			return nil, err
